@@ -201,22 +201,32 @@ Resolve(c, ok, o, pick) ==
   IF c \notin Pending THEN UNCHANGED avars
   ELSE
     LET ca == pend[c].ca
-        g1 == CAApplyG(G, ca, o)
+        g1 == IF ok THEN CAApplyG(G, ca, o) ELSE G
         Hs == <<HeldCU(c, 0), HeldCU(c, 1), HeldNA(c, ca.n1), HeldNA(c, ca.n2)>>
         clean == \A i \in 1..4 : Hs[i] = {} \/ CleanKey(g1, Hs[i])
+        Took(p) == (p.k = "cu" /\ ~CURejectG(g1, p)) \/ (p.k = "na" /\ p.n \in Nds(g1))
     IN
     /\ Gprev' = G
-    /\ pend' = Restrict(pend, Pending \ {c})
+    /\ G' = ApplyPick(ApplyPick(ApplyPick(ApplyPick(g1, pick[1]), pick[2]), pick[3]), pick[4])
     /\ IF ok
        THEN /\ o \in CAAllowedG(G, ca)
             /\ \A i \in 1..4 : PickOK(g1, Hs[i], pick[i])
-            /\ G' = ApplyPick(ApplyPick(ApplyPick(ApplyPick(g1, pick[1]), pick[2]), pick[3]), pick[4])
             /\ eff' = IF o = "add" /\ clean
                       THEN eff \cup {ca} \cup {m \in pend[c].held : m.k = "na" \/ ~CURejectG(g1, m)}
                       ELSE eff
             /\ pure' = (pure /\ o = "add" /\ clean)
+            /\ pend' = Restrict(pend, Pending \ {c})
+       \* the UTXO does not exist: the announcement is dropped; held messages that refer to
+       \* something the graph knows from elsewhere may still be applied (not prescribed)
        ELSE /\ o = "none"
-            /\ G' = G /\ eff' = eff /\ pure' = pure
+            /\ \A i \in 1..4 : pick[i] \in Hs[i] \cup {NoMsg}
+            /\ eff' = eff \cup {pick[i] : i \in {j \in 1..4 : Took(pick[j])}}
+            /\ pure' = pure
+            \* a held node announcement whose node is still unknown may move on to the other
+            \* pending lookups that involve this node
+            /\ \E mig \in SUBSET {pick[i] : i \in {j \in 3..4 : pick[j].k = "na" /\ pick[j].n \notin Nds(G)}} :
+                 pend' = [x \in Pending \ {c} |->
+                            [pend[x] EXCEPT !.held = @ \cup {m \in mig : m.n \in {pend[x].ca.n1, pend[x].ca.n2}}]]
     /\ UNCHANGED <<lookup, amode, caps, tombC, tombN, delivered>>
 
 -----------------------------------------------------------------------------
